@@ -35,7 +35,15 @@ func VH_C12_Close() {
 		}
 		sendDone <- err
 	}()
-	go func() { // the server application reads forever
+	// the server application either reads forever or does not read at all (the
+	// receive buffer then fills up and the receive loop is parked on it)
+	serverReads := vBool("server_reads")
+	go func() {
+		if !serverReads {
+			<-p.srv.quit
+			recvDone <- errTransportClosing
+			return
+		}
 		for {
 			if _, err := p.srv.Recv(); err != nil {
 				recvDone <- err
@@ -113,7 +121,9 @@ func VH_C12_Close() {
 	// the peer is told by FIN when the transport works (or finds out through keep-alive)
 	if !silent && vParam("faults", 1) == 0 {
 		deadline := time.After(20 * time.Second)
-		if who == 0 {
+		// (a peer whose application does not read learns about the FIN only once
+		// it drains its receive buffer: nothing of it is hanging meanwhile)
+		if who == 0 && serverReads {
 			select {
 			case <-p.srv.quit:
 			case <-deadline:
